@@ -265,11 +265,26 @@ def _install_db_observer(director):
 
 
 def prepare_inputs(cfg, scratch):
-    src, fname, files = INPUTS[cfg.get("reactor", "smallest")]
+    """Copy / generate the input files of this run into the scratch directory.  Returns the
+    settings file name and the settings the input set needs."""
+    from sim import inputs
+
+    kind = cfg.get("reactor", "smallest")
+    src, fname, files = INPUTS["smallest"]
     for f in files:
         if not os.path.exists(os.path.join(scratch, f)):
             shutil.copy(os.path.join(src, f), os.path.join(scratch, f))
-    return fname
+    extra = {}
+    if kind == "gen":
+        with open(os.path.join(scratch, "gen.yaml"), "w") as f:
+            f.write(inputs.blueprint_text(cfg.get("blueprint", {})))
+        extra["loadingFile"] = "gen.yaml"
+        if cfg.get("fuelHandler"):
+            with open(os.path.join(scratch, "planShuffle.py"), "w") as f:
+                f.write(inputs.SHUFFLE_LOGIC)
+            extra["shuffleLogic"] = "planShuffle.py"
+            extra["fuelHandlerName"] = "PlanFuelHandler"
+    return fname, extra
 
 
 def build_life(cfg, scratch, life, director, extra_settings=None):
@@ -277,9 +292,10 @@ def build_life(cfg, scratch, life, director, extra_settings=None):
     from armi import getPluginManagerOrFail, operators, settings
     from armi.reactor import reactors
 
-    fname = prepare_inputs(cfg, scratch)
+    fname, input_settings = prepare_inputs(cfg, scratch)
     os.chdir(scratch)
     new = dict(BASE_OVERRIDES)
+    new.update(input_settings)
     new.update(cfg.get("settings", {}))
     if extra_settings:
         new.update(extra_settings)
